@@ -365,6 +365,11 @@ func checkC02(r *core.Run) {
 		{"callee-ends-attribute-and-opens-url", `{{define "ct"}}" href="ja{{end}}<a title="ja{{template "ct"}}">x</a><a title="/x{{template "ct"}}` + S + `">y</a>`, []string{"vascript:alert(1)"}, false},
 		{"callee-ends-attribute-and-opens-url", `{{define "ct"}}" href="java{{end}}<a title="java{{template "ct"}}">x</a><a title="/x?{{template "ct"}}` + S + `">y</a>`, []string{"script:alert(1)"}, false},
 		{"callee-ends-attribute-and-opens-url", `{{define "ct"}}' src='ja{{end}}<img alt='ja{{template "ct"}}'><img alt='//{{template "ct"}}` + S + `'>`, []string{"vascript:alert(1)"}, false},
+		// text that only looks like the end tag of the raw-text element
+		{"end-tag-look-alike", `<script>var s = "</script.>";` + S + `</script>`, []string{c02Marker}, false},
+		{"end-tag-look-alike", `<script>var s = "</script-x>";` + S + `</script>`, []string{c02Marker}, false},
+		{"end-tag-look-alike", `<style>a{}</style,>` + S + `</style>`, []string{c02Marker}, false},
+		{"end-tag-look-alike", `<script>var s = "</scriptx>";` + S + `</script>`, []string{c02Marker}, false},
 		{"script-type-attribute", `<script type="text/template">` + S + `</script>`, []string{c02Marker}, false},
 		{"script-type-attribute", `<script type="text/javascript" type="text/plain">` + S + `</script>`, []string{c02Marker}, false},
 		{"script-type-attribute", `<script type="module">` + S + `</script>`, []string{c02Marker}, false},
